@@ -403,7 +403,7 @@ def corpus_schedule(tier, seed, rnd):
             for sd in seeds:
                 N = rnd.choice(Ns)
                 cc = dict(c, width=w, N=N, seed=sd, rate=rnd.choice([0.5, 1.0, 2.0]),
-                          budget=300 if tier == "quick" else 2000)
+                          budget=300 if tier == "quick" else 800)
                 specs.append(cc)
     # fixed
     nsteps = [1, 2, 3, 5, 6, 7, 10, 49] if tier == "quick" else [1, 2, 3, 4, 5, 6, 7, 9, 10, 11, 13, 20, 49, 100]
@@ -411,7 +411,7 @@ def corpus_schedule(tier, seed, rnd):
         for w in (0.05, 0.5, 3.0):
             for mx in (None, 2):
                 specs.append(dict(adaptive=False, n_steps=n, max_n_steps=mx, width=w, N=rnd.choice(Ns), seed=seeds[0],
-                                  budget=300 if tier == "quick" else 2000))
+                                  budget=300 if tier == "quick" else 800))
     # fixed n_steps given together with adaptive (n_steps ignored by the adaptive controller)
     for w in (0.05, 0.5):
         specs.append(dict(adaptive=True, n_steps=3, width=w, N=8, seed=seeds[0]))
